@@ -5,6 +5,7 @@ import (
 	"go/constant"
 	"go/types"
 	"math/big"
+	"sort"
 	"strconv"
 	"strings"
 
@@ -777,6 +778,17 @@ func (e *Env) call(n ECall) Term {
 	case "catm":
 		argN(4)
 		return mk(SBSeq, "catm", e.tr(n.Args[0]), e.tr(n.Args[1]), e.tr(n.Args[2]), e.tr(n.Args[3]))
+	case "implementsAppend":
+		// synthesized from the contracts: the function stored in t.AppendFunc is one of the
+		// functions under contract and its row condition (requires c02_row) holds for t
+		argN(1)
+		if fv.FC == nil || !fv.revealed("implementsAppend") {
+			// kept uninterpreted outside the functions that establish it (the expansion is a
+			// large disjunction over every writer under contract)
+			fv.declareFun("implApp", []string{SInt}, SBool)
+			return mk(SBool, "implApp", e.tr(n.Args[0]))
+		}
+		return e.implementsAppend(e.tr(n.Args[0]))
 	case "store":
 		argN(3)
 		a := e.tr(n.Args[0])
@@ -1364,4 +1376,53 @@ func (fv *FuncVC) heapKeyOf(name string) string {
 		return fv.fieldHeapName(t, name[i+1:])
 	}
 	return name
+}
+
+func (e *Env) implementsAppend(t Term) Term {
+	fv := e.fv
+	tT, _ := fv.resolveType("*tType")
+	t.T = tT
+	si := fv.TE.StructInfo(tT.(*types.Pointer).Elem())
+	var af Term
+	for _, f := range si.Fields {
+		if f.GoName == "AppendFunc" {
+			af = fv.fieldLoad(e.st, t, tT.(*types.Pointer).Elem(), f)
+		}
+	}
+	var keys []string
+	for k, fc := range fv.W.CS.Funcs {
+		if fc.Trusted || fc.Dyn || len(fc.Params) != 3 {
+			continue
+		}
+		has := false
+		for _, c := range fc.Requires {
+			if c.Name == "c02_row" {
+				has = true
+			}
+		}
+		if has {
+			keys = append(keys, k)
+		}
+	}
+	sort.Strings(keys)
+	var conj, any []Term
+	for _, k := range keys {
+		fc := fv.W.CS.Funcs[k]
+		fn := fv.W.FuncByKey[k]
+		if fn == nil {
+			continue
+		}
+		fcst := fv.funcConst(fn)
+		ne := &Env{fv: fv, st: e.st, old: e.old, vars: map[string]Term{}, callee: true, depth: e.depth + 1, pos: fc.Pos}
+		ne.vars[fc.Params[0].Name] = t
+		var rows []Term
+		for _, c := range fc.Requires {
+			if c.Name == "c02_row" {
+				rows = append(rows, ne.boolExpr(c.E, c.Pos))
+			}
+		}
+		conj = append(conj, implies(eq(af, fcst), and(rows...)))
+		any = append(any, eq(af, fcst))
+	}
+	return and(and(conj...), or(any...))
 }
